@@ -84,6 +84,11 @@ fn eval_line(l: &str, stats: &mut BTreeMap<String, u64>, thorough: bool) -> (Str
             }
             (body, verdict) }
         ["N", n] => (match pest::unicode::by_name(n) { Some(_) => match FUNCS.iter().find(|f| f.1 == *n) { Some(f) => format!("{} {}", f.0, f.1), None => "unadvertised".into() }, None => "none".into() }, "ok".into()),
+        ["K", n] => {
+            // the validator's verdict on a grammar that uses the name as a built-in rule
+            let acc = catch(|| pest_meta::parse_and_optimize(&format!("x = {{ {} }}", n)).is_ok()).unwrap_or(false);
+            let adv = FUNCS.iter().any(|f| f.1 == *n);
+            (if acc { "accepted".into() } else { "rejected".into() }, if adv && !acc { format!("FAIL the advertised property name {} is rejected by the validator (x = {{ {} }} does not pass parse_and_optimize)", n, n) } else { "ok".into() }) }
         _ => ("bad-op".into(), "ok".into()),
     }
 }
@@ -98,6 +103,8 @@ fn main() {
             let (i, v) = eval_line("A", &mut stats, thorough); out.push("A".into(), i, v);
             for f in FUNCS { let l = format!("U {} {}", f.0, f.1); let (i, v) = eval_line(&l, &mut stats, thorough); out.push(l, i, v); let l = format!("N {}", f.1); let (i, v) = eval_line(&l, &mut stats, thorough); out.push(l, i, v); }
             for f in FUNCS { let l = format!("B {}", f.1); let (i, v) = eval_line(&l, &mut stats, thorough); out.push(l, i, v); }
+            for f in FUNCS { let l = format!("K {}", f.1); let (i, v) = eval_line(&l, &mut stats, thorough); out.push(l, i, v); }
+            for n in ["FOO", "han", "Han", "LETTER_", "ASCII_DIGIT", "NEWLINE", "ANY"] { let l = format!("K {}", n); let (i, v) = eval_line(&l, &mut stats, thorough); out.push(l, i, v); }
             for n in ["FOO", "han", "Han", "LETTER_", ""] { let l = format!("N {}", n); let (i, v) = eval_line(&l, &mut stats, thorough); out.push(l, i, v); }
             let samples: Vec<String> = out.ops.iter().step_by((out.ops.len() / 5).max(1)).take(5).cloned().collect();
             let stats_s = format!("{{\"evaluations\":{},\"sets\":{},\"scalar_values_per_set\":1112064,\"distinct_nontrivial\":{},\"observed\":{:?},\"samples\":{:?}}}", FUNCS.len() as u64 * 1112064 * 2, FUNCS.len(), FUNCS.len(), stats, samples);
